@@ -34,11 +34,9 @@ theorem HIe_backStep (kinds : List Kind) (links : List (Nat × List Tgt)) (hwf :
         intro x hx
         obtain ⟨th, hth⟩ := getThread_some nd.threads x.r (h.rdr n nd hn x hx)
         exact ⟨th, h.nl n nd hn x.r th hth⟩
-      obtain ⟨x, cs, hx, hxst, hxm, hfill⟩ := nlt_answer g.log n (aa n) w a q0 pend' hinv e1 hra hall
+      obtain ⟨x, hx, hq0x, hfill⟩ := nlt_answer g.log n (aa n) w a q0 pend' hinv e1 hra hall
       obtain ⟨th, hth⟩ := getThread_some nd.threads x.r (h.rdr n nd hn x hx)
       obtain ⟨inbox, pc⟩ := th
-      have hq0x : q0 ∈ idsR x := by
-        simp only [idsR, hxst, cellsOfSt, List.mem_cons]; right; exact written_mem_open cs q0 w hxm
       have hq0i : q0 ∈ ids (aa n).reqs := mem_ids_of_mem hx hq0x
       have hdis := jbm_disj nd (aa n) g.next hjb x.r _ hth q0 hq0i
       obtain ⟨ds, d1, d2, d3, d4, d5, d6, d7⟩ := hfill inbox pc (h.nl n nd hn x.r _ hth)
